@@ -53,12 +53,49 @@ var (
 func c14Init() {
 	c14Once.Do(func() {
 		m2 := corpus.Match(corpus.OxmByName("OXM_OF_IN_PORT", false, 1), corpus.OxmByName("OXM_OF_ETH_DST", true, 2))
+		m3 := corpus.Match(corpus.OxmByName("OXM_OF_IN_PORT", false, 7), corpus.OxmByName("OXM_OF_IPV4_SRC", true, 5))
 		fm := corpus.FlowMod(0, m2, corpus.Instr("instr_apply_actions", 1, corpus.Action("act_output", 1), corpus.Action("nx_reg_load", 2)))
+		fm2 := corpus.FlowMod(1, m3, corpus.Instr("instr_write_actions", 4, corpus.Action("act_group", 5)), corpus.Instr("instr_goto_table", 6))
+		vary := func(n *wire.N) *wire.N {
+			// the same kind with every scalar changed, so that cross-talk between two encoders of the
+			// same kind is visible
+			c := n.Clone()
+			var walk func(x *wire.N)
+			walk = func(x *wire.N) {
+				if x == nil {
+					return
+				}
+				for k, v := range x.U {
+					switch k {
+					case "Type", "Command", "Class", "Field", "HasMask", "Vendor", "ExperimenterType", "Length", "Flags":
+					default:
+						x.U[k] = (v ^ 0x5a5a5a5a5a5a5a5a) & maxOf(v)
+					}
+				}
+				for _, ch := range x.S {
+					walk(ch)
+				}
+				for _, l := range x.L {
+					for _, ch := range l {
+						walk(ch)
+					}
+				}
+			}
+			walk(c)
+			return c
+		}
+		// even index: a model; odd index: the same kind with different values
 		c14Models = []*wire.N{
-			fm,
-			corpus.GroupMod(0, 1, corpus.Bucket(1, corpus.Action("act_output", 1))),
-			corpus.BundleAdd(fm.Clone(), 1),
-			corpus.PacketOut(corpus.EthFrame("arp"), true, corpus.Action("act_output", 2)),
+			fm, fm2,
+			corpus.GroupMod(0, 1, corpus.Bucket(1, corpus.Action("act_output", 1))), corpus.GroupMod(1, 2, corpus.Bucket(4, corpus.Action("act_group", 3)), corpus.Bucket(5)),
+			corpus.BundleAdd(fm.Clone(), 1), corpus.BundleAdd(fm2.Clone(), 2),
+			corpus.PacketOut(corpus.EthFrame("arp"), true, corpus.Action("act_output", 2)), corpus.PacketOut(corpus.EthFrame("ipv4-udp"), true, corpus.Action("act_output", 5), corpus.Action("act_group", 6)),
+		}
+		for _, b := range c05ControllerBases() {
+			switch b.K {
+			case "multipart_request", "port_mod", "set_config":
+				c14Models = append(c14Models, b, vary(b))
+			}
 		}
 		for _, n := range []*wire.N{
 			corpus.PacketIn(1, corpus.Match(corpus.OxmByName("OXM_OF_IN_PORT", false, 1)), corpus.EthFrame("ipv4-udp")),
@@ -162,7 +199,22 @@ func c14Run(o c14Op) (xids []uint32, result string) {
 	return nil, "unknown op"
 }
 
-var c14Alphabet = []c14Op{{"G", 0}, {"H", 0}, {"E", 0}, {"E", 2}, {"P", 0}, {"F", 0}, {"B", 0}, {"E", 1}, {"E", 3}, {"P", 1}, {"P", 2}, {"F", 1}, {"F", 2}}
+// the first 7 operations are the core alphabet (bodies of several operations); the rest only occur
+// as single-operation bodies. E operations: even argument = a model, odd = same kind, other values.
+var c14Alphabet = []c14Op{{"G", 0}, {"H", 0}, {"E", 0}, {"E", 4}, {"P", 0}, {"F", 0}, {"B", 0}, {"E", 1}, {"E", 2}, {"E", 3}, {"E", 5}, {"E", 6}, {"E", 7},
+	{"E", 8}, {"E", 9}, {"E", 10}, {"E", 11}, {"E", 12}, {"E", 13}, {"E", 14}, {"E", 15}, {"E", 16}, {"E", 17}, {"E", 18}, {"E", 19}, {"P", 1}, {"P", 2}, {"F", 1}, {"F", 2}}
+
+func maxOf(v uint64) uint64 {
+	switch {
+	case v <= 0xff:
+		return 0xff
+	case v <= 0xffff:
+		return 0xffff
+	case v <= 0xffffffff:
+		return 0xffffffff
+	}
+	return ^uint64(0)
+}
 
 type c14Scenario struct {
 	Bodies [][]c14Op `json:"bodies"`
@@ -353,22 +405,41 @@ func c14(r *ev.Run, replay string) {
 	small := c14Alphabet[:7]
 	starts := []uint32{1, 0xfffffff0}
 	// 2 threads: all unordered pairs of bodies of length <= 2 over the core alphabet, both start values
-	b2 := c14Bodies(2, small)
+	// bodies: every single operation of the core alphabet, every pair of id-drawing operations, and
+	// a few two-operation bodies that mix lookups/parsing with id draws
+	b2 := c14Bodies(1, small)
+	for _, b := range c14Bodies(2, []c14Op{{"G", 0}, {"H", 0}, {"E", 0}, {"B", 0}}) {
+		if len(b) == 2 {
+			b2 = append(b2, b)
+		}
+	}
+	b2 = append(b2, []c14Op{{"F", 0}, {"F", 1}}, []c14Op{{"P", 0}, {"F", 0}}, []c14Op{{"F", 0}, {"G", 0}}, []c14Op{{"E", 4}, {"P", 0}}, []c14Op{{"E", 4}, {"E", 5}})
+	drawsOnly := func(b []c14Op) bool {
+		for _, o := range b {
+			if o.Kind == "P" || o.Kind == "F" {
+				return false
+			}
+		}
+		return true
+	}
 	for i := range b2 {
 		for j := i; j < len(b2); j++ {
 			for _, st := range starts {
+				if st != 1 && !(drawsOnly(b2[i]) && drawsOnly(b2[j])) {
+					continue // the start value only matters to bodies that draw ids
+				}
 				run(c14Scenario{Bodies: [][]c14Op{b2[i], b2[j]}, Start: st})
 			}
 		}
 	}
-	r.Completed(fmt.Sprintf("T2 2 threads x all unordered pairs of the %d bodies of length <= 2 over {G,H,E0,E2,P0,F0,B} x start ids {1, 0xfffffff0}: all interleavings", len(b2)))
+	r.Completed(fmt.Sprintf("T2 2 threads x all unordered pairs of the %d bodies (7 single operations, 16 pairs over {G,H,E0,B}, 5 mixed pairs) x start id 1 (and 0xfffffff0 for id-drawing bodies)", len(b2)))
 	// every operation of the full alphabet against every other, single-op bodies
 	for i := range c14Alphabet {
 		for j := i; j < len(c14Alphabet); j++ {
 			run(c14Scenario{Bodies: [][]c14Op{{c14Alphabet[i]}, {c14Alphabet[j]}}, Start: 1})
 		}
 	}
-	r.Completed("T2b all unordered pairs of the 13 single operations (4 encoders, 3 parsers, 3 registry users, 2 generators, bundle)")
+	r.Completed(fmt.Sprintf("T2b all unordered pairs of the %d single operations (every controller-originated kind in two value variants, 3 parsers, 3 registry users, 2 generators, bundle)", len(c14Alphabet)))
 	// 3 threads: all multisets of single-op bodies over the core alphabet; two-op bodies over the id-drawing ops
 	for i := range small {
 		for j := i; j < len(small); j++ {
@@ -378,7 +449,7 @@ func c14(r *ev.Run, replay string) {
 		}
 	}
 	idOps := []c14Op{{"G", 0}, {"E", 0}, {"B", 0}}
-	b3 := c14Bodies(2, idOps)
+	b3 := c14Bodies(2, []c14Op{{"G", 0}, {"H", 0}})
 	for i := range b3 {
 		for j := i; j < len(b3); j++ {
 			for k := j; k < len(b3); k++ {
@@ -386,7 +457,15 @@ func c14(r *ev.Run, replay string) {
 			}
 		}
 	}
-	r.Completed("T3 3 threads: all multisets of single operations over the core alphabet; all multisets of bodies of length <= 2 over {G,E0,B}: all interleavings")
+	for _, sc := range [][][]c14Op{
+		{{{"E", 0}, {"G", 0}}, {{"B", 0}}, {{"G", 0}, {"G", 0}}},
+		{{{"B", 0}}, {{"B", 0}}, {{"B", 0}}},
+		{{{"E", 0}}, {{"E", 1}}, {{"E", 0}, {"E", 1}}},
+		{{{"E", 4}, {"H", 0}}, {{"E", 5}}, {{"B", 0}}},
+	} {
+		run(c14Scenario{Bodies: sc, Start: 0xfffffff0})
+	}
+	r.Completed("T3 3 threads: all multisets of single operations over the core alphabet; all multisets of the 6 bodies of length <= 2 over {G,H}; 4 mixed scenarios with encoders and bundles")
 	if r.Thorough() {
 		b23 := c14Bodies(3, idOps)
 		for i := range b23 {
